@@ -443,6 +443,23 @@ class BasinProxyFeature(np.lib.mixins.NDArrayOperatorsMixin):
             raise AttributeError(
                 f"BasinProxyFeature does not implement {item}")
 
+    def _nan_ufunc(self, ufunc):
+        """NaN-ignoring summary of a scalar feature (like H5ScalarEvent)"""
+        if not self.is_scalar:
+            raise AttributeError(
+                f"BasinProxyFeature does not implement {ufunc.__name__} "
+                f"for non-scalar features")
+        return ufunc(self.__array__())
+
+    def max(self, *args, **kwargs):
+        return self._nan_ufunc(np.nanmax)
+
+    def mean(self, *args, **kwargs):
+        return self._nan_ufunc(np.nanmean)
+
+    def min(self, *args, **kwargs):
+        return self._nan_ufunc(np.nanmin)
+
     @property
     def shape(self):
         """Shape of the mapped data (not that of the basin's feature)"""
